@@ -632,3 +632,39 @@ impl Check for C20 {
         out
     }
 }
+
+#[cfg(test)]
+mod tests {
+    use super::*;
+
+    /// The C19 reference table and the strict decoder's per-packet property sets are written
+    /// independently of each other; they must agree on which kinds a client packet may carry.
+    #[test]
+    fn table_agrees_with_decoder_property_sets() {
+        let env = Env { topic_alias_max: 65535, connect_expiry: 1 };
+        let mut r = Rng::new(1);
+        for (ci, ctx) in CTXS.iter().enumerate() {
+            // decoder contexts: 0 publish, 1 will, 2 subscribe, 3 unsubscribe, 4 disconnect
+            let dctx = match ctx {
+                Ctx::Publish => 0,
+                Ctx::Will => 1,
+                Ctx::Subscribe => 2,
+                Ctx::Unsubscribe => 3,
+                Ctx::Disconnect => 4,
+            };
+            let _ = ci;
+            for id in ALL_PROP_IDS {
+                let vs: Vec<V> = variants(id, &mut r).iter().map(|p| verdict(p, *ctx, &env)).collect();
+                let any_accept = vs.iter().any(|v| *v == V::Accept);
+                let all_reject = vs.iter().all(|v| *v == V::Reject);
+                let dec = crate::refcodec::client_allows(dctx, id);
+                if any_accept {
+                    assert!(dec, "table accepts {} in {:?} but the decoder forbids it", Prop::name(id), ctx);
+                }
+                if all_reject {
+                    assert!(!dec, "table rejects {} in {:?} but the decoder allows it", Prop::name(id), ctx);
+                }
+            }
+        }
+    }
+}
